@@ -55,12 +55,9 @@ def blur (m : Mask) (size : Nat) : Mask :=
   ofFn m.ny m.nx fun j i =>
     m.get j i || padded.anyWindow j i (size * 2 + 1) (size * 2 + 1)
 
-/-- `blur_mask` as a callable, with its two refusals: `numpy.pad` raises on a negative pad
-width, `numpy.nditer` raises on a zero-sized array (`none` = `ValueError`). -/
+/-- `blur_mask` as a callable: `numpy.pad` raises on a negative pad width (`none`). -/
 def blur? (m : Mask) (size : Int) : Option Mask :=
-  if size < 0 then none
-  else if m.ny = 0 ∨ m.nx = 0 then none
-  else some (m.blur size.toNat)
+  if size < 0 then none else some (m.blur size.toNat)
 
 /-- `operator.or_` of two boolean arrays (shape of the left operand). -/
 def or2 (a b : Mask) : Mask :=
